@@ -2,7 +2,7 @@
 NOTES = ("Runtime monitoring only: every verdict is an oracle observing executions of the real code built from /repo's working tree. Exit 0 = held on what was observed, "
          "exit 1 + VIOLATION line = refuted with replay file, exit 2 + INCONCLUSIVE line = nothing can be said (never folded into the others). "
          "Known findings: /verif/known_findings.json (3 open: two pinned by existing tests, one whose repair is not small and safe; the fix: commits are listed as fixed and suppress nothing). "
-         "Validation of the monitors: 301 independent seeded changes in /verif/seeded (tools/runseeded.sh), every fix reversed (tools/regress.sh), behaviour-preserving refactors in "
+         "Validation of the monitors: 321 independent seeded changes in /verif/seeded (tools/runseeded.sh), every fix reversed (tools/regress.sh), behaviour-preserving refactors in "
          "/verif/neutral (tools/runneutral.sh), syntactic mutation screening (tools/mutscreen.py, mutscreen/SUMMARY.md). Thorough tier adds a coverage-based reach audit to the evidence.")
 HOOK_COMMITS = ["f9ac6f7", "155194a"]
 
